@@ -125,6 +125,7 @@ type VC struct {
 	uninterp  map[string]string // declared uninterpreted helpers
 	witness   []namedTerm
 	rets      int
+	retReach  []Term
 	failed    error
 }
 
@@ -289,7 +290,27 @@ func (vc *VC) compEntry(name, sort string) Term {
 	vc.decls = append(vc.decls, fmt.Sprintf("(declare-const %s %s)", n, sort))
 	vc.compSort[name] = sort
 	vc.compInit[name] = n
+	vc.assumeCompValid(n, sort, true)
 	return n
+}
+
+// assumeCompValid states Go's type invariant for every slice held in a (fresh or entry) heap
+// component: 0 <= off, 0 <= len <= cap. Values built by the code satisfy it by construction.
+func (vc *VC) assumeCompValid(comp Term, sort string, global bool) {
+	var f Term
+	switch sort {
+	case "(Array Int ys.Slice)":
+		f = fmt.Sprintf("(forall ((r Int)) (! (and (<= 0 (ys.off (select %s r))) (<= 0 (ys.len (select %s r))) (<= (ys.len (select %s r)) (ys.cap (select %s r)))) :pattern ((select %s r))))", comp, comp, comp, comp, comp)
+	case "ys.Slice":
+		f = and(app("<=", "0", app("ys.off", comp)), app("<=", "0", app("ys.len", comp)), app("<=", app("ys.len", comp), app("ys.cap", comp)))
+	default:
+		return
+	}
+	if global {
+		vc.assumeGlobal(f)
+	} else {
+		vc.assume(f)
+	}
 }
 
 func (vc *VC) setComp(st *State, name, sort string, t Term) {
